@@ -68,6 +68,7 @@ type FuncContract struct {
 	StopBefore []string
 	ExactKeys  bool
 	NilOK      bool
+	LockHandoff bool // the function acquires or releases mutexes on behalf of its caller (begin / close pairs): no lock.balanced obligation
 	NoPre      bool // partial mode: callee preconditions are not checked in this function (listed as not claimed)
 	NotClaimed [][3]string // obligation kind, fragment of its source line, reason
 }
@@ -79,6 +80,7 @@ type CallSiteSpec struct {
 	Tag    string
 	Clause *Clause
 	IsUse  bool // "callsite f use lemma(args)": assume a lemma instance at the call instead of asserting
+	IsNever bool // "callsite f never [tag]": no reachable call of f (assert false at each, no cover; none at all is fine)
 	IsReach bool // "callsite f reach [tag] e": the call must be reachable in a state satisfying e (a must-be-satisfiable cover)
 }
 
@@ -117,6 +119,7 @@ type PkgContracts struct {
 	LemmaByName map[string]*Lemma
 	Assumptions []string // mechanical scan: trusted / axiom entries
 	GlobalInvs  []*Clause
+	MonotoneGhosts map[string]bool
 	GhostVars   []Param // package-level ghost state: "ghostvar name type", read and written only by contracts as ghost.name
 }
 
@@ -125,7 +128,7 @@ var ckeywords = map[string]bool{
 	"ensures": true, "modifies": true, "nopanic": true, "nooverflow": true, "pure": true,
 	"trusted": true, "inline": true, "loop": true, "use": true, "split": true, "tier": true,
 	"induct": true, "ih": true, "allocbound": true, "abstract": true, "ghost": true, "uninterp": true, "where": true, "import": true, "globalinv": true, "slow": true,
-	"partial": true, "callsite": true, "ghostvar": true, "stopafter": true, "stopbefore": true, "notclaimed": true, "exactkeys": true, "nilok": true, "nopre": true,
+	"partial": true, "callsite": true, "ghostvar": true, "stopafter": true, "stopbefore": true, "notclaimed": true, "exactkeys": true, "nilok": true, "nopre": true, "lockhandoff": true,
 }
 
 func parseParams(s string) ([]Param, error) {
@@ -351,11 +354,26 @@ func loadContracts(path string) (*PkgContracts, error) {
 			pc.LemmaByName[curL.Name] = curL
 		case "ghostvar":
 			curF, curL = nil, nil
+			// "ghostvar name bool monotone": a flag that, by its definition ("X has happened"), is never
+			// reset: code without a contract can only leave it or set it, so a havoc keeps it once true
+			mono := false
+			if f := strings.Fields(rest); len(f) == 3 && f[2] == "monotone" && f[1] == "bool" {
+				mono = true
+				rest = f[0] + " " + f[1]
+			}
 			ps, err := parseParams(rest)
 			if err != nil {
 				return nil, fail(l, "ghostvar: %v", err)
 			}
 			pc.GhostVars = append(pc.GhostVars, ps...)
+			if mono {
+				if pc.MonotoneGhosts == nil {
+					pc.MonotoneGhosts = map[string]bool{}
+				}
+				for _, g := range ps {
+					pc.MonotoneGhosts[g.Name] = true
+				}
+			}
 		case "globalinv":
 			// package-level invariant over effectively-final globals: proved on init, assumed elsewhere
 			curF, curL = nil, nil
@@ -483,6 +501,11 @@ func loadContracts(path string) (*PkgContracts, error) {
 					curF.NotClaimed = append(curF.NotClaimed, [3]string{ob, tail[1:j], strings.TrimSpace(tail[j+1:])})
 				case "nopre":
 					curF.NoPre = true
+				case "lockhandoff":
+					// the function hands mutexes to / takes them from its caller on purpose; its own clauses
+					// say which.  Callers do not see the change (calls never change the ghost lock state), so
+					// this is only sound for callers whose contracts do not talk about those mutexes.
+					curF.LockHandoff = true
 				case "nilok":
 					// the method may be called on a nil receiver (it checks for nil itself)
 					curF.NilOK = true
@@ -504,6 +527,17 @@ func loadContracts(path string) (*PkgContracts, error) {
 				case "callsite":
 					// callsite <callee> assert [tag] <expr>
 					f := strings.Fields(rest)
+					if len(f) >= 3 && f[1] == "never" {
+						// callsite <callee> never [tag]: the function makes no reachable call of callee (the
+						// assertion "false" at every such call, without the reachability cover)
+						body := strings.TrimSpace(strings.TrimPrefix(strings.TrimSpace(rest[len(f[0]):]), f[1]))
+						c, err := mkClause(l, body+" false")
+						if err != nil {
+							return nil, err
+						}
+						curF.CallSites = append(curF.CallSites, &CallSiteSpec{Callee: f[0], Tag: c.Tag, Clause: c, IsNever: true})
+						break
+					}
 					if len(f) < 3 || f[1] != "assert" && f[1] != "use" && f[1] != "reach" {
 						return nil, fail(l, "callsite: expected 'callsite <callee> assert <expr>' or 'callsite <callee> use lemma(args)'")
 					}
